@@ -4,7 +4,8 @@ One case = one boolean table x back-end x construction algorithm x object/attrib
 implementation builds the lattice; for every concept the four label functions
 (get_concept_new_extent(_i), get_concept_new_intent(_i)) and ancestors() are recorded, the default
 node label of the visualizer is exercised, and the harness reads the table off labels + order
-exactly as the theorem does (g has m iff node(g) = node(m) or node(m) in ancestors(node(g))).
+exactly as the theorem does (g has m iff node(g) lies below or at node(m)), through every order
+oracle the API offers: ancestors(), descendants(), leq_elements() and <= on the concept objects.
 """
 import random
 from harness.core import coq, some, Raw, guarded, canon, ERR_KINDS
@@ -18,8 +19,8 @@ CHECK = 'c04_check'
 SHOW = 'c04_show'
 SHARD = 40
 RULE = ('case = (table, back-end, algorithm in CbO/Lindig/default/Sofia(L_max=1000), shuffled name ids); the four '
-        'label functions and ancestors() for every concept, the visualizer label for every concept, the table '
-        'rebuilt from labels + order; non-trivial = at least 4 concepts, not a chain, and some node shared by two '
+        'label functions and ancestors()/descendants()/leq_elements()/<= for every concept (pair), the visualizer '
+        'label for every concept, the table rebuilt from labels + order through each of the four order oracles; non-trivial = at least 4 concepts, not a chain, and some node shared by two '
         'objects or two attributes or carrying no label')
 EXHAUSTIVE = {'thorough': 'every boolean table of shape <= 3x3 (and 2x4, 4x2) x {CbO, default} (back-end rotating)'}
 BACKENDS = base.BACKENDS
@@ -59,15 +60,25 @@ def run_impl(case):
                 label_ok = False
             if LineVizNx.concept_lattice_label_func(i, L, f1, m1, f2, m2) != expected_label(d, c, f1, m1, f2, m2):
                 label_ok = False
-        out.update({'nei': nei, 'nii': nii, 'ne': ne, 'ni': ni, 'anc': anc, 'label_ok': label_ok})
+        desc = [canon(L.descendants(i)) for i in range(n)]
+        leq = [[bool(L.leq_elements(a, b)) for b in range(n)] for a in range(n)]
+        cle = [[bool(L[a] <= L[b]) for b in range(n)] for a in range(n)]
+        out.update({'nei': nei, 'nii': nii, 'ne': ne, 'ni': ni, 'anc': anc, 'desc': desc, 'leq': leq, 'cle': cle,
+                    'label_ok': label_ok})
         # read the table off the diagram
         ohome = {g: [i for i in range(n) if g in nei[i]] for g in range(h)}
         ahome = {m: [i for i in range(n) if m in nii[i]] for m in range(w)}
         if all(len(v) == 1 for v in ohome.values()) and all(len(v) == 1 for v in ahome.values()):
-            out['rebuilt'] = [[(ohome[g][0] == ahome[m][0]) or (ahome[m][0] in anc[ohome[g][0]])
-                               for m in range(w)] for g in range(h)]
+            # "the object's concept lies below or at the attribute's concept": through every order
+            # oracle the API offers -- ancestors(), descendants(), leq_elements(), <= on the concepts
+            oracles = [lambda a, b: a == b or b in anc[a],
+                       lambda a, b: a == b or a in desc[b],
+                       lambda a, b: leq[a][b],
+                       lambda a, b: cle[a][b]]
+            out['rebuilt'] = [[[bool(below(ohome[g][0], ahome[m][0])) for m in range(w)] for g in range(h)]
+                              for below in oracles]
         else:
-            out['rebuilt'] = None
+            out['rebuilt'] = []
         return out
     return list(guarded(go, timeout_s=60))
 
@@ -77,12 +88,13 @@ def to_coq(case, out):
     algo = base.ALGO_CODE[case['algo']]
     on, an = coq(case['onames']), coq(case['anames'])
     if out[0] != 'ok':
-        return 'Build_c04_case %s %d %d [] %s %s [] [] [] [] [] None false' % (
+        return 'Build_c04_case %s %d %d [] %s %s [] [] [] [] [] [] [] [] [] false' % (
             t, algo, ERR_KINDS.get(out[1], 11), on, an)
     o = out[1]
-    return 'Build_c04_case %s %d 0 %s %s %s %s %s %s %s %s %s %s' % (
+    return 'Build_c04_case %s %d 0 %s %s %s %s %s %s %s %s %s %s %s %s %s' % (
         t, algo, base.concepts_term(o['concepts']), on, an, coq(o['nei']), coq(o['nii']),
-        coq(o['ne']), coq(o['ni']), coq(o['anc']), some(o['rebuilt']), coq(bool(o['label_ok'])))
+        coq(o['ne']), coq(o['ni']), coq(o['anc']), coq(o['desc']), coq(o['leq']), coq(o['cle']),
+        coq(o['rebuilt']), coq(bool(o['label_ok'])))
 
 
 def _mk(rng, t, backend, algo, kind=''):
